@@ -66,6 +66,11 @@ def run(ctx):
             tl1 = rnd.choice([t for t in TARGETS if not (t2.view_prefix(cfg) and t.startswith(b".."))])
             ops = [("symlink", rnd.choice(TARGETS), b"/z/l3"), ("remove", b"/l1"), ("symlink", tl1, b"/l1")] + ops + \
                   [("realpath", b"/z/l3/" + c) for c in COMPS]
+        if gi % 3 == 1:
+            # a directory the transaction already tracks is replaced by a symlink later in the same transaction
+            ops = [("create", b"/x/y/tmp", "Bt"), ("remove", b"/x/y/tmp"), ("remove", b"/x/y/f"), ("remove", b"/x/y"),
+                   ("symlink", rnd.choice([b"/z", b"../z", b"/z/w"]), b"/x/y")] + \
+                  [("realpath", b"/x/y/" + c) for c in COMPS] + [("realpath", b"/x/y/f/" + c) for c in COMPS[:3]] + ops
         cases.append(t2.Case("c16-%d" % gi, cfg, graph_inits(cfg, ta, tb), ops))
     impl, mod = t2.run_both("C16.graphs", cases, model=model_ok)
     res = {"name": "graphs", "n": 0, "mismatch": [], "oracle": [], "nontrivial": 0, "exhaustive": tier != "quick",
